@@ -354,6 +354,8 @@ struct World
     void corrupt_blob(const Step& s, int track_index);
     void corrupt_pages(const Step& s);
     bool exec_hostile_op(const Step& s);  // hostile.cpp
+    bool exec_detect_op(const Step& s);   // detect.cpp (C13)
+    bool exec_drift_op(const Step& s);    // drift.cpp (C17)
     void hostile_finish(const std::string& op);
     void adopt_crate(const dj::crate& c, int64_t parent, const std::string& name);
     void apply_setter(dj::track& t, int field, int slot, const dj::track_snapshot& donor,
